@@ -23,6 +23,7 @@ from pathlib import Path
 
 sys.path.insert(0, str(Path(__file__).resolve().parent.parent))
 from harness.common import (Run, Disagreement, cli, DriverError)  # noqa: E402
+from harness.c20_decoder import decoder_probe  # noqa: E402  (phase 5: direct decoder probe, any number of tokens)
 
 PROP = 'C20'
 NS = 'urn:t'
@@ -2141,6 +2142,7 @@ def search(run: Run):
         cases.append(gen_case(rng, True))
     for i in range(0, len(cases), 400):
         compare(sub, cases[i:i + 400])
+    decoder_probe(sub, 1200, sys.modules[__name__])
     run.notes.append(f'search: {len(cases)} systematic cases, {len(sub.disagreements)} disagreements')
     return sub.disagreements
 
@@ -2457,9 +2459,10 @@ def body(run: Run) -> int:
         'selection compared as sets of pre-order indices (document order of results is property C01)']
     run.stats.extra['prototype_tables'] = translate(run)
     run.trusted_base.append('translator harness/c20.py::translate (prints decoder._ATOMIC_VALUES class names as Lean literals)')
-    run.prove(['EPV.Props.C20', 'EPV.Props.C20Tables'], extra_modules=[])
+    run.prove(['EPV.Props.C20', 'EPV.Props.C20Tables', 'EPV.Props.C20All'], extra_modules=[])
     try:
         correspond(run)
+        decoder_probe(run, run.scale(600, 6000), sys.modules[__name__])
         histories(run, run.scale(50, 500))
     except DriverError as e:
         run.broken.append('driver:C20 ' + str(e)[:300])
